@@ -1446,6 +1446,16 @@ class Authenticated(BaseClientHandler):
             await self.send_pending_notifications()
 
         self.fetch_while_pending_count = 0
+
+        # A mailbox selected with EXAMINE is read-only: fetching a message
+        # body must not set `\Seen`, so every body fetch is treated like
+        # `BODY.PEEK`.
+        #
+        if self.examine:
+            for fetch_att in cmd.fetch_atts:
+                fetch_att.peek = True
+            cmd.fetch_peek = True
+
         try:
             async with cmd.ready_and_okay(self.mbox):
                 msg_set = (
